@@ -46,10 +46,10 @@ class PKONEHardwarePlatform(SwitchPlatform, DriverPlatform, LightsPlatform, Serv
         self._watchdog_task = None
         self.hw_switch_data = dict()
 
-        self.pkone_commands = {'PCN': lambda x, y: None,            # connected Nano processor
-                               'PCB': lambda x, y: None,            # connected board
-                               'PWD': lambda x, y: None,            # watchdog
-                               'PWF': lambda x, y: None,            # watchdog stop
+        self.pkone_commands = {'PCN': lambda x: None,               # connected Nano processor
+                               'PCB': lambda x: None,               # connected board
+                               'PWD': lambda x: None,               # watchdog
+                               'PWF': lambda x: None,               # watchdog stop
                                'PSA': self.receive_all_switches,    # all switch states
                                'PSW': self.receive_switch,          # switch state change
                                'PXX': self.receive_error,           # error
